@@ -14,6 +14,10 @@ type InstrMeta struct {
 	Imm     [2]uint64      // 16B, immediates / branch target PC
 }
 
+// zetaPadding is the number of zero bytes appended to the code for operand decoding: an
+// instruction reads at most 2 + 8 bytes after its opcode.
+const zetaPadding = 16
+
 // BlockMeta holds pre-decoded metadata for a single PVM basic block.
 // Populated once at deblob time; never mutated afterwards.
 type BlockMeta struct {
@@ -160,6 +164,12 @@ func (p *Program) preDecodeBlocks() ExitReason {
 		p.InstrIdxAt[i] = -1
 	}
 
+	// (GP A.2) operands are read from ζ = c ⌢ [0, 0, …]: decode from a zero-extended copy so that an
+	// instruction whose operands run past the end of the code reads zeros (and never the bitmask
+	// bytes that follow the code in the blob, or past the slice).
+	zeta := make(ProgramCode, n+zetaPadding)
+	copy(zeta, idata)
+
 	pc := ProgramCounter(0)
 	for pc < ProgramCounter(n) {
 		if !bitmask.IsStartOfBasicBlock(pc) {
@@ -192,7 +202,7 @@ func (p *Program) preDecodeBlocks() ExitReason {
 			})
 			p.InstrIdxAt[pc] = int32(idx)
 
-			decodeOperands(&p.Instrs[idx], idata, bitmask)
+			decodeOperands(&p.Instrs[idx], zeta, bitmask)
 
 			if IsBlockTerminator(op) {
 				block.EndPC = pc
